@@ -169,10 +169,20 @@ Section PROGS.
           | FOk _ | FErr ENOENT => if should_init then job_init ws new_sp false k else k (inl tt)
           | FErr e => k (inr (POs e))
           end) in
+      (* the outer [except OSError] for an errno other than ENOENT (8529336): the state point file is read
+         again (_load_from_resource; a missing file gives None), the in-memory data restored, the error re-raised *)
+      let oexit (x : perr) : prog A :=
+        Do (CRead fname) (fun r =>
+          match r with
+          | FErr ENOENT => k (inr x)
+          | FErr e3 => k (inr (POs e3))
+          | FOk (RData d) => match c_json d with Some _ => k (inr x) | None => k (inr (PExn EValueError)) end
+          | FOk _ => k (inr (PExn EOther))
+          end) in
       Do (CRename fname bak) (fun r =>
         match r with
         | FErr ENOENT => phase2 false
-        | FErr e => k (inr (POs e))
+        | FErr e => oexit (POs e)
         | FOk _ =>
             Do (CRename odir ndir) (fun r1 =>
               match r1 with
@@ -181,16 +191,16 @@ Section PROGS.
                   Do (CRename bak fname) (fun r2 =>          (* rollback *)
                     match r2 with
                     | FErr ENOENT => phase2 false
-                    | FErr e2 => k (inr (POs e2))
+                    | FErr e2 => oexit (POs e2)
                     | FOk _ =>
                         (* the in-memory data is restored from the restored file (_load_from_resource) *)
                         Do (CRead fname) (fun r3 =>
                           let continue_ : prog A :=
                             if dest_exists_e e then k (inr (PExn EDestinationExists))
-                            else match e with ENOENT => phase2 false | _ => k (inr (POs e)) end in
+                            else match e with ENOENT => phase2 false | _ => oexit (POs e) end in
                           match r3 with
                           | FErr ENOENT => continue_
-                          | FErr e3 => k (inr (POs e3))
+                          | FErr e3 => oexit (POs e3)
                           | FOk (RData d) =>
                               match c_json d with Some _ => continue_ | None => k (inr (PExn EValueError)) end
                           | FOk _ => k (inr (PExn EOther))
@@ -200,9 +210,9 @@ Section PROGS.
         end).
 
   (* The same protocol with the HANDLE's in-memory state at every exit: (id, in-memory state point data).
-     The data was modified BEFORE _save runs; it is restored from the file only after a successful rollback
-     (re-read); every other failing exit keeps the rejected value in memory.  [rekey_h_forget] below: forgetting
-     the handle state gives [rekey]. *)
+     The data was modified BEFORE _save runs; it is restored from the file by the re-read after a successful
+     rollback and by the re-read of the outer handler ([oexit]); a file holding `null` or a missing file leave
+     the memory alone (_update(None)).  [rekey_h_forget] below: forgetting the handle state gives [rekey]. *)
   Definition rekey_h {A} (ws : path) (old_id : str) (new_sp : json)
                      (k : str * json -> unit + perr -> prog A) : prog A :=
     let new_id := calc_id frepr new_sp in
@@ -219,10 +229,22 @@ Section PROGS.
               if should_init then job_init ws new_sp false (fun r0 => k (new_id, new_sp) r0) else k (new_id, new_sp) (inl tt)
           | FErr e => k (new_id, new_sp) (inr (POs e))
           end) in
+      let oexit (hd : json) (x : perr) : prog A :=
+        Do (CRead fname) (fun r =>
+          match r with
+          | FErr ENOENT => k (old_id, hd) (inr x)
+          | FErr e3 => k (old_id, hd) (inr (POs e3))
+          | FOk (RData d) =>
+              match c_json d with
+              | Some v => k (old_id, if is_jnull v then hd else v) (inr x)
+              | None => k (old_id, hd) (inr (PExn EValueError))
+              end
+          | FOk _ => k (old_id, hd) (inr (PExn EOther))
+          end) in
       Do (CRename fname bak) (fun r =>
         match r with
         | FErr ENOENT => phase2 false
-        | FErr e => k (old_id, new_sp) (inr (POs e))            (* the rejected value stays in memory *)
+        | FErr e => oexit new_sp (POs e)
         | FOk _ =>
             Do (CRename odir ndir) (fun r1 =>
               match r1 with
@@ -231,18 +253,18 @@ Section PROGS.
                   Do (CRename bak fname) (fun r2 =>
                     match r2 with
                     | FErr ENOENT => phase2 false
-                    | FErr e2 => k (old_id, new_sp) (inr (POs e2))
+                    | FErr e2 => oexit new_sp (POs e2)
                     | FOk _ =>
                         Do (CRead fname) (fun r3 =>
                           let continue_ (d : json) : prog A :=
                             if dest_exists_e e then k (old_id, d) (inr (PExn EDestinationExists))
-                            else match e with ENOENT => phase2 false | _ => k (old_id, d) (inr (POs e)) end in
+                            else match e with ENOENT => phase2 false | _ => oexit d (POs e) end in
                           match r3 with
-                          | FErr ENOENT => continue_ (JObj [])
-                          | FErr e3 => k (old_id, new_sp) (inr (POs e3))
+                          | FErr ENOENT => continue_ new_sp
+                          | FErr e3 => oexit new_sp (POs e3)
                           | FOk (RData d) =>
                               match c_json d with
-                              | Some v => continue_ v                     (* self._update(file content) *)
+                              | Some v => continue_ (if is_jnull v then new_sp else v)   (* self._update(file content) *)
                               | None => k (old_id, new_sp) (inr (PExn EValueError))
                               end
                           | FOk _ => k (old_id, new_sp) (inr (PExn EOther))
